@@ -19,7 +19,8 @@ RULE = (
     "variations (1-21 order keys), TMC, empty kinematic lists, kinematics given as numpy scalars, or (ii) synthetic "
     "Output objects with arbitrary order keys, shapes and values (-0.0, subnormals, 1e+-300), None observables, nf "
     "None/int; then a chain of 1-3 dump/load cycles over {tar, yaml}; in half of the cases the tar file name has a past (a different output "
-    "was dumped to and loaded from the same path just before, and all tar cycles of the chain reuse it). Oracle: after every cycle the loaded object "
+    "was dumped to and loaded from the same path just before, and all tar cycles of the chain reuse it) and a future (after the chain an output with other cards is "
+    "dumped and loaded in both formats, then every object loaded earlier is compared once more). Oracle: after every cycle the loaded object "
     "has identical keys, kinematics (x,Q2,y,nf), order-key list in the same order, bitwise identical values and "
     "errors, grid/degree/log/pids/projectile and cards, and bitwise identical apply_pdf predictions for a generated "
     "PDF. Non-trivial = at least one observable with >=1 point and >=2 order keys, or a chain of >=2 cycles."
@@ -33,7 +34,7 @@ ASSUMPTIONS = [
 BUDGET = {"quick": {"examples": 1600, "wall": 300}, "thorough": {"examples": 40000, "wall": 2400}}
 MANDATORY = {
     t: ["nontrivial", "source:real", "source:synthetic", "fmt:tar", "fmt:yaml", "chain:3", "xs", "empty-kinematics", "none-observable",
-        "numpy-kinematics", "special-values", "file-name-reused-with-other-content"]
+        "numpy-kinematics", "special-values", "file-name-reused-with-other-content", "something-else-loaded-afterwards"]
     for t in ("quick", "thorough")
 }
 SHRINK = {"quick": False, "thorough": True}
@@ -269,6 +270,7 @@ def check_case(case):
     tmp = tempfile.mkdtemp(prefix="yv_c15_")
     try:
         cur = out0
+        loaded = []
         slot = os.path.join(tmp, "slot.tar")
         if case.get("decoy") and "tar" in case["chain"]:
             # the file name has a past: a different output went through it (dump, load) before the one under test
@@ -320,7 +322,31 @@ def check_case(case):
             compare(v, out0, nxt, tag, pdf)
             if v.failures:
                 return v
+            loaded.append((tag, nxt))
             cur = nxt
+        if case.get("decoy") and loaded:
+            # objects loaded earlier stay what they were when something else is loaded afterwards (tar and yaml)
+            try:
+                other = build_output(case)
+                other.theory = dict(other.theory or {}, Comments="another card", ID=4242)
+                other.observables = dict(other.observables or {}, Comments="another card")
+                for name, val in other.items():
+                    if isinstance(val, list) and "_" in name and len(val) >= 2 and hasattr(val[0], "orders"):
+                        val.pop()
+                p2 = os.path.join(tmp, "other.tar")
+                other.dump_tar(p2)
+                Output.load_tar(p2)
+                stream = io.StringIO()
+                other.dump_yaml(stream)
+                stream.seek(0)
+                Output.load_yaml(stream)
+                v.label("something-else-loaded-afterwards")
+            except Exception:  # pylint: disable=broad-except
+                v.label("decoy-failed")
+            for tag, obj in loaded:
+                compare(v, out0, obj, tag + ":after-another-load", pdf)
+                if v.failures:
+                    return v
     finally:
         shutil.rmtree(tmp, ignore_errors=True)
     v.nontrivial = (npts >= 1 and nkeys >= 2) or len(case["chain"]) >= 2
